@@ -116,6 +116,8 @@ class kFlowDecomp(pathmodel.AbstractPathModelDAG):
         - ValueError: If the graph contains edges with negative (<0) flow values.
         - ValueError: If `flow_attr_origin` is not "node" or "edge".
         """
+        # (one-shot iterables - generators, iterators - are read once, here: the type checks below would use them up and the model would see nothing)
+        elements_to_ignore = list(elements_to_ignore) if elements_to_ignore is not None else elements_to_ignore
 
         utils.logger.info(f"{__name__}: START initializing with graph id = {utils.fpid(G)}, k = {k}")
 
